@@ -74,8 +74,13 @@ def lenient(cases):
     """every third VALCKSUM call is preceded, in the same interpreter, by a lenient (VALNONE) parse of the same bytes:
     what VALCKSUM lets through must not depend on what was parsed before"""
     for k, (o, c) in enumerate(cases):
-        if o == "c05_parse" and k % 3 == 0:
-            c = dict(c, lenient_first=1)
+        if o == "c05_parse":
+            # validation must not depend on the other parse options: both bitfield settings, every msgmode
+            c = dict(c, pbf=(k // 3) % 2)
+            if "mode" not in c:
+                c["mode"] = (0, 0, 1, 0, 2, 3)[(k // 7) % 6]
+            if k % 3 == 0:
+                c["lenient_first"] = 1
         yield (o, c)
 
 
